@@ -256,7 +256,17 @@ def check(case, out):
         out.label(*TP.tree_labels(tree, R))
     n = R.shape[0]
     out.label("log_alg:" + case["log_alg"], "trace_alg:" + case["trace_alg"], "fn:" + case["fn"])
-    A = IR.build(tree)
+    try:
+        A = IR.build(tree)
+    except Exception as e:
+        # an `inv` operand is factorised when it is built: below a scalar multiple that falsely reports PSD (open finding
+        # F-C05-scalar) the automatic Cholesky fails there already (seen in a thorough run at seed 11)
+        if TP.contaminated_by_scalar(tree, ("PSD", "SelfAdjoint"), transparent=()):
+            out.inconclusive += 1
+            out.label("contaminated:F-C05-scalar")
+        else:
+            out.fail("call", "build:" + tree["k"], oracle.exc_man(e), e)
+        return
     # open finding F-C05-scalar: a scalar multiple falsely reporting PSD / SelfAdjoint matters only where that annotation
     # is read, i.e. below a node without a structural slogdet rule (Sum, Transpose, ...); Product (square factors),
     # Kronecker and BlockDiag recurse factor by factor and never read it, so those cases stay decidable
